@@ -697,6 +697,7 @@ _process_request_(struct qb_ipcs_connection *c, int32_t ms_timeout)
 		res = size;
 		goto cleanup;
 	} else if (size > 0 && (size < (ssize_t)sizeof(*hdr) ||
+				(size_t)size > c->request.max_msg_size ||
 				hdr->size < 0 || hdr->size > size)) {
 		/* the header claims more than was actually received */
 		qb_util_log(LOG_DEBUG, "malformed request from client (%s)",
